@@ -90,3 +90,12 @@ Lemma rewriting_seek_modifies :
                   (snd (run ctor_XYZ {| e_mode := MR; e_force := true; e_unk := fun _ => false |}
                             {| s_node := Some (File [1; 2]); s_h := HNone |}))) = Some (File []).
 Proof. vm_compute. reflexivity. Qed.
+
+(* every write-mode constructor call written inside a Trajectory.save_* method hands on the caller's force_overwrite
+   (or the literal False), in whatever branch of the method it stands *)
+Lemma mdtraj_saver_calls : forall l f, In (l, f) saver_ctor_calls -> f = FPass \/ f = FLit false.
+Proof.
+  intros l f Hin. pose proof all_saver_calls_forward as H. unfold check_saver_calls in H.
+  rewrite forallb_forall in H. specialize (H (l, f) Hin). cbn in H.
+  destruct f as [|[|]]; [left; reflexivity | discriminate | right; reflexivity].
+Qed.
